@@ -167,6 +167,16 @@ func c10Exec(c C10Case) (bad string, cpu time.Duration, alloc uint64) {
 	return "", 0, 0
 }
 
+func c10CaseMarker(f func()) { f() }
+
+func processCPU() time.Duration {
+	var ru syscall.Rusage
+	if err := syscall.Getrusage(0 /* RUSAGE_SELF */, &ru); err != nil {
+		return 0
+	}
+	return time.Duration(ru.Utime.Sec+ru.Stime.Sec)*time.Second + time.Duration(ru.Utime.Usec+ru.Stime.Usec)*time.Microsecond
+}
+
 func threadCPU() time.Duration {
 	var ru syscall.Rusage
 	if err := syscall.Getrusage(1 /* RUSAGE_THREAD */, &ru); err != nil {
@@ -213,15 +223,24 @@ func init() {
 				var b string
 				var cpu time.Duration
 				var al uint64
-				go func() {
+				cpu0 := processCPU()
+				go c10CaseMarker(func() {
 					runtime.LockOSThread()
 					b, cpu, al = c10Exec(c)
 					close(done)
-				}()
+				})
 				select {
 				case <-done:
 				case <-time.After(25 * time.Second):
-					fmt.Fprintf(log, "TIMEOUT %d\n", i)
+					// what the watchdog saw: a case that is parked in a blocking primitive (hang), one that has burnt
+					// CPU all the time (does not terminate), or one that simply did not get the processor (undecided)
+					kind := "starved"
+					if ok, _ := blockedForever("checks.c10CaseMarker"); ok {
+						kind = "blocked"
+					} else if processCPU()-cpu0 >= 15*time.Second {
+						kind = "busy"
+					}
+					fmt.Fprintf(log, "TIMEOUT %d %s\n", i, kind)
 					log.Sync()
 					os.Exit(4)
 				}
@@ -528,8 +547,10 @@ func c10RunBatch(scratch string, id int, cases []C10Case) []c10Result {
 					last = -1
 				}
 			case strings.HasPrefix(l, "TIMEOUT "):
-				fmt.Sscanf(l, "TIMEOUT %d", &i)
+				kind := ""
+				fmt.Sscanf(l, "TIMEOUT %d %s", &i, &kind)
 				res[i].state = "timeout"
+				res[i].bad = kind
 				last = -1
 				start = i + 1
 			case l == "DONE":
@@ -614,8 +635,11 @@ func C10(run *core.Run) {
 			if rs[0].state == "timeout" && c.Family == "html-endtags" && run.KnownSignature("html-trailing-space-lookahead-quadratic") {
 				continue
 			}
-			if rs[0].state == "timeout" {
-				report(c, "does not return: watchdog (25 s) expired twice, the second time alone in a fresh process")
+			if rs[0].state == "timeout" && rs[0].bad == "starved" {
+				run.Inconclusive() // the case never got 15 s of processor time in 25 s of wall time and is not parked either
+				run.Count("watchdog_on_a_starved_case")
+			} else if rs[0].state == "timeout" {
+				report(c, "does not return: watchdog (25 s) expired twice, the second time alone in a fresh process ("+map[string]string{"blocked": "every goroutine of the case is parked in a blocking primitive with an unchanging stack", "busy": "the process burnt at least 15 s of CPU meanwhile", "": "state unknown"}[rs[0].bad]+")")
 			} else if rs[0].state == "crash" {
 				report(c, "the process died (fatal error): "+rs[0].bad)
 			} else {
